@@ -23,34 +23,36 @@ Theorem C36_alpha_ok_reading : forall fs mn alpha,
   new_count alpha fs <= (length fs - 1) / 3 /\ 0 < new_count alpha fs.
 Proof. exact alpha_ok_spec. Qed.
 
-(* FULL statement for the inner-ring list (does not hold, see C36_ir_list_refuted):
-     length before = length after -> NoDup before -> NoDup after -> NoDup ir -> incl before ir ->
-     exists l, update_inner_ring ir before after = Some l /\ NoDup l /\ (set difference = replaced keys)
-   [all lists, by induction] it holds when no inner-ring key outside `before` is one of the `after` keys: *)
-Theorem C36_ir_list_partial : forall ir before after,
+(* [all lists, by induction] the inner-ring list derived by the repaired updateInnerRing (fix commit in
+   known_findings.txt): for duplicate-free lists of equal length with the current alphabet inside the inner
+   ring, the call succeeds, the result has no duplicates and differs from the old list exactly by the replaced
+   keys: z is in the result iff it was in the inner ring and is not a replaced key (in before, not in after),
+   or it is a new key (in after, not in before).  No premise about extra inner-ring keys. *)
+Theorem C36_ir_list : forall ir before after,
   length before = length after -> NoDup before -> NoDup after -> NoDup ir -> incl before ir ->
-  (forall x, In x ir -> ~ In x before -> ~ In x after) ->
   exists l, update_inner_ring ir before after = Some l /\ NoDup l /\
             forall z, In z l <-> (In z ir /\ ~ (In z before /\ ~ In z after)) \/ (In z after /\ ~ In z before).
-Proof. exact update_inner_ring_partial. Qed.
+Proof. exact update_inner_ring_full. Qed.
 
-(* an extra inner-ring key that gets voted into the alphabet ends up twice in the new inner-ring list:
+(* the code before the repair (model update_inner_ring_old / pipeline_old): an extra inner-ring key that gets
+   voted into the alphabet ended up twice in the new inner-ring list:
    alphabet [1;2;3;4], main network [0;1;2;3], inner ring [1;2;3;4;0]  ->  [0;0;1;2;3] *)
-Theorem C36_ir_list_refuted :
+Theorem C36_ir_list_old_refuted :
   exists fs mn ir a l,
     NoDup fs /\ NoDup mn /\ NoDup ir /\ incl fs ir /\
-    pipeline fs mn ir = (Proposed a, Some l) /\ ~ NoDup l.
-Proof. exact update_inner_ring_refuted. Qed.
+    pipeline_old fs mn ir = (Proposed a, Some l) /\ ~ NoDup l.
+Proof. exact update_inner_ring_old_refuted. Qed.
 
 (* non-vacuity *)
 Example C36_example :
   new_alphabet_list [5;2;3;4;1;6;7] [0;1;2;3;8;9;4] = Proposed [0;1;2;3;4;5;8]
   /\ alpha_ok [5;2;3;4;1;6;7] [0;1;2;3;8;9;4] [0;1;2;3;4;5;8] = true
   /\ pipeline [1;2;3;4] [0;1;2;3] [4;3;2;1;7] = (Proposed [0;1;2;3], Some [0;1;2;3;7])
+  /\ pipeline [1;2;3;4] [0;1;2;3] [1;2;3;4;0] = (Proposed [0;1;2;3], Some [0;1;2;3])
   /\ new_alphabet_list [1;2;3] [1;2;3;4] = Unchanged.
 Proof. vm_compute. repeat split; reflexivity. Qed.
 
 Print Assumptions C36_alphabet_universe8.
 Print Assumptions C36_alpha_ok_reading.
-Print Assumptions C36_ir_list_partial.
-Print Assumptions C36_ir_list_refuted.
+Print Assumptions C36_ir_list.
+Print Assumptions C36_ir_list_old_refuted.
